@@ -76,6 +76,10 @@ def sig(tj):
     return tj.get('txt', k)
 
 
+RC_OBSERVERS = ('::strong_count', '::weak_count', 'Rc::<T, A>::get_mut', 'Rc::<T>::get_mut', '::try_unwrap', 'Rc::<T, A>::into_inner',
+                '::ptr_eq', '::is_unique', 'SharedPointer::<T, P>::get_mut', 'SharedPointer::<T, P>::try_unwrap', 'core::ptr::eq', 'core::ptr::addr_eq')
+
+
 def _mentions(j, l):
     """number of places/operands in the JSON value `j` whose base local is `l`"""
     if isinstance(j, dict):
@@ -218,6 +222,7 @@ def run(rep, facts, tier):
     rep.rule('C03.R4', 'snapshots are direct results of State::clone; the live state is replaced only by clones / popped snapshots')
     rep.rule('C03.R5', 'no global mutable state; nondeterminism sources only in the excluded words')
     rep.rule('C03.R6', 'unsafe inventory')
+    rep.rule('C03.R7', 'sharing is not observable: no result depends on a reference count or on pointer identity')
 
     # ---------- R1
     nodes, seen = walk_types(fx, 'state::State')
@@ -403,3 +408,39 @@ def run(rep, facts, tier):
             rep.add('C03.R6', 'C03.R6:unsafe-fn:%s' % fn, ok, 'C API entry point (FFI contract)' if ok else 'unsafe fn outside the C API', fn, f.j['span'],
                     nontrivial=False)
     rep.floor('C03.R6 unsafe blocks', len(ub), 1)
+
+    # ---------- R7: a clone raises reference counts; code that reads them (or pointer identity) behaves differently
+    # once a snapshot exists.  Expected: none.  A copy-on-write helper may test the count to skip the copy, if the
+    # value it returns is the same either way: for Bitstr::detach the copying arm left-aligns (range 0..len), so the
+    # in-place arm must be taken only for a value that already starts at bit 0.
+    from ..rules.c08 import guard_facts
+    from ..zone import strip as zstrip, lin
+    n7 = 0
+    for fn, f in sorted(fx.fns.items()):
+        for bb, t in f.calls():
+            c = callee_of(t) or ''
+            if not any(c.endswith(x) for x in RC_OBSERVERS):
+                continue
+            n7 += 1
+            ok, why = False, '%s reads %s: the outcome depends on whether a clone of the interpreter still shares the value' % (short(fn), short(c))
+            if fn == 'bitstr::Bitstr::detach':
+                # blocks that return `self` unchanged
+                keeps = [b for b in f.reachable_blocks() for st in f.blocks[b]['stmts']
+                         if st['k'] == 'assign' and st['lhs']['l'] == 0 and not st['lhs']['p'] and st['rv']['k'] == 'use'
+                         and isinstance(f.expr_of_operand(st['rv']['o']), tuple) and f.expr_of_operand(st['rv']['o'])[0] == 'arg']
+                aligned = bool(keeps)
+                for b in keeps:
+                    facts_b = guard_facts(f, b)
+                    has = False
+                    for (op, a, b2) in facts_b:
+                        if op == 'Eq':
+                            sa, sb = expr_str(zstrip(a), -10), expr_str(zstrip(b2), -10)
+                            if ('range.start' in sa and sb == '0') or ('range.start' in sb and sa == '0'):
+                                has = True
+                    aligned = aligned and has
+                ok = aligned
+                why = ('the uncopied arm is taken only when range.start == 0, the copying arm builds range 0..len: same representation either way'
+                       if ok else 'Bitstr::detach returns the value unchanged when it is the sole owner and a left-aligned copy (range 0..len) when '
+                       'it is shared: `start()` - and with it `open-bitstr offset` - depends on whether a snapshot holds the buffer')
+            rep.add('C03.R7', 'C03.R7:refcount-observed:%s' % fn, ok, why, fn, t.get('at'))
+    rep.add('C03.R7', 'C03.R7:observers-counted', True, '%d reference-count / pointer-identity reads in the crate' % n7, None, None, nontrivial=False)
